@@ -116,4 +116,15 @@ Definition call_time (name:list N) (ps:list value) : bres :=
     match ps with
     | [VStr s] => match parse_time s with Some (h,mi,ss) => if (h <? 24) && (mi <? 60) && (ss <? 60) then BOk (of_ms (((h * 60 + mi) * 60 + ss) * 1000)) else BUnmodelled | None => BUnmodelled end
     | [] => cnt 1%N | _ => BUnmodelled end
+  else if is [115;116;114;105;110;103;95;116;111;95;100;97;116;101;116;105;109;101] then
+    match ps with
+    | [VStr s] =>
+        if Nat.eqb (length s) 19 && (nth 10 s 0%N =? 32)%N then
+          match parse_date (firstn 10 s), parse_time (skipn 11 s) with
+          | Some (y,m,d), Some (h,mi,ss) =>
+              if negb (valid_date y m d) then BErr CustomError
+              else if (h <? 24) && (mi <? 60) && (ss <? 60) then BOk (of_ms (days_from_civil y m d * MSD + ((h * 60 + mi) * 60 + ss) * 1000)) else BUnmodelled
+          | _, _ => BUnmodelled end
+        else BUnmodelled
+    | [] => cnt 1%N | _ => BUnmodelled end
   else BUnmodelled.
